@@ -290,11 +290,16 @@ func GenRule(ch *core.Chooser, k int, hosts []string, prev []string) string {
 		return p + "$badfilter"
 	case KRegex:
 		lbl := strings.SplitN(h, ".", 2)[0]
-		switch ch.Intn("rule.regex", 3) {
+		switch ch.Intn("rule.regex", 6) {
 		case 0:
 			return "/" + lbl + "[a-z0-9]*\\./"
 		case 1:
 			return "/^https?:\\/\\/" + strings.ReplaceAll(h, ".", "\\.") + "/"
+		case 3:
+			// twins that differ in the case of one letter of the pattern
+			return "/\\/ads\\d*\\.js/"
+		case 4:
+			return "/\\/ads\\D*\\.js/"
 		default:
 			return "@@/" + lbl + "\\.[a-z]+/"
 		}
@@ -306,6 +311,18 @@ func GenRule(ch *core.Chooser, k int, hosts []string, prev []string) string {
 	case KHostV4:
 		ip := []string{"0.0.0.0", "127.0.0.1", "1.2.3.4", "10.9.8.7"}[ch.Intn("rule.ip4", 4)]
 		s := ip + " " + h
+		if ch.Intn("rule.manynames", 8) == 7 {
+			// one line with many names
+			n := 7 + ch.Intn("rule.manynamesn", 6)
+			for i := 0; i < n; i++ {
+				if i%3 == 2 {
+					s += " " + pick(ch, "rule.host2", hosts)
+				} else {
+					s += fmt.Sprintf(" n%d.%s", i, h)
+				}
+			}
+			return s
+		}
 		if ch.Intn("rule.alias", 3) == 0 {
 			s += " " + pick(ch, "rule.host2", hosts)
 		}
@@ -339,7 +356,7 @@ func GenRule(ch *core.Chooser, k int, hosts []string, prev []string) string {
 		return pre + h + "^$" + pick(ch, "rule.type", typeOpts)
 	case KWebDomain:
 		d := pick(ch, "rule.host2", hosts)
-		switch ch.Intn("rule.domainform", 10) {
+		switch ch.Intn("rule.domainform", 11) {
 		case 7:
 			// patterns too short for the shortcuts table: these rules live
 			// in the $domain table
@@ -356,6 +373,9 @@ func GenRule(ch *core.Chooser, k int, hosts []string, prev []string) string {
 			return pick(ch, "rule.path", pathPatterns) + "$domain=" + d
 		case 0:
 			return "||" + h + "^$domain=" + d
+		case 10:
+			// any public suffix
+			return pick(ch, "rule.path", pathPatterns) + "$domain=" + strings.SplitN(d, ".", 2)[0] + ".*"
 		case 1:
 			return pick(ch, "rule.path", pathPatterns) + "$domain=" + d + "|~" + pick(ch, "rule.host3", hosts)
 		case 2:
@@ -372,6 +392,17 @@ func GenRule(ch *core.Chooser, k int, hosts []string, prev []string) string {
 		}
 		return "@@||" + h + "^$" + []string{"document", "urlblock", "genericblock", "elemhide", "generichide", "jsinject", "stealth", "content"}[ch.Intn("rule.doc", 8)]
 	case KWebMatchCase:
+		// patterns that differ in nothing but the case of a letter
+		switch ch.Intn("rule.mcform", 6) {
+		case 0:
+			return "/ads.js$match-case"
+		case 1:
+			return "/ADS.js$match-case,script"
+		case 2:
+			return "||" + h + "/path/ads.js$match-case"
+		case 3:
+			return "||" + h + "/path/AdS.js$match-case,image"
+		}
 		return "/AdS.js$match-case"
 	case KCosmetic:
 		switch ch.Intn("rule.cosform", 4) {
